@@ -263,6 +263,114 @@ Lemma p_nud_ite : forall f v r,
   end.
 Proof. reflexivity. Qed.
 
+Lemma p_nud_if : forall f r,
+  p_nud (S f) (IFt :: r) =
+  match p_expr f 0 r with
+  | Some (a, r1) =>
+    match expect "THEN" r1 with
+    | Some r2 =>
+      match p_expr f 0 r2 with
+      | Some (b, r3) =>
+        match expect "ELSE" r3 with
+        | Some r4 =>
+          match p_expr f (rule_bind T "IF_THEN_ELSE") r4 with
+          | Some (c, r5) => Some (Opr "ite" [a; b; c], r5)
+          | None => None
+          end
+        | None => None
+        end
+      | None => None
+      end
+    | None => None
+    end
+  | None => None
+  end.
+Proof. reflexivity. Qed.
+
+Lemma p_nud_quant : forall f kw r,
+  tty kw = "FORALL" \/ tty kw = "EXISTS" ->
+  p_nud (S f) (kw :: r) =
+  match Parser.p_list T f r with
+  | Some (vs, r1) =>
+    match expect "COLON" r1 with
+    | Some r2 =>
+      match p_expr f (rule_bind T "COLON") r2 with
+      | Some (b, r3) => Some (Opr (tval kw) [Opr "params" vs; b], r3)
+      | None => None
+      end
+    | None => None
+    end
+  | None => None
+  end.
+Proof. intros f [ty v] r [H|H]; simpl in H; subst ty; reflexivity. Qed.
+
+Lemma p_list_S : forall f ts,
+  Parser.p_list T (S f) ts =
+  match p_expr f 0 ts with
+  | Some (e, r1) =>
+      match r1 with
+      | c :: r2 =>
+          if is_ty c "COMMA" then
+            match Parser.p_list T f r2 with
+            | Some (es, r3) => Some (e :: es, r3)
+            | None => None
+            end
+          else Some ([e], r1)
+      | [] => Some ([e], r1)
+      end
+  | None => None
+  end.
+Proof. reflexivity. Qed.
+
+Lemma stops_COLON : forall m, stops m (Some COLONt).
+Proof. intros. apply tok_stops_nonop; [simpl; tauto | discriminate]. Qed.
+Lemma stops_THEN : forall m, stops m (Some THENt).
+Proof. intros. apply tok_stops_nonop; [simpl; tauto | discriminate]. Qed.
+Lemma stops_ELSE : forall m, stops m (Some ELSEt).
+Proof. intros. apply tok_stops_nonop; [simpl; tauto | discriminate]. Qed.
+
+(* a quantified variable, x or x', followed by `,` or `:` *)
+Lemma p_expr_var : forall v rest k,
+  var_wf T v -> stops 0 (hd_error rest) ->
+  p_expr (3 + k) 0 (var_toks v ++ rest) = Some (var_tree T v, rest).
+Proof.
+  intros [x [t|]] rest k Hw Hs; unfold var_toks, var_tree, var_wf in *; simpl in Hw;
+    cbn [fst snd app]; change (3 + k) with (S (S (S k))).
+  - destruct Hw as [Hb Hp].
+    destruct (pt_post T (tty t)) as [[[a lv] name]|] eqn:Eq; [|congruence].
+    rewrite p_expr_S.
+    change (p_nud (S (S k)) (Tok "NAME" x :: t :: rest)) with (Some (Term KVar x, t :: rest)).
+    cbv iota beta.
+    rewrite (p_led_post _ _ _ _ _ _ _ _ Hb Eq (can_shift0 lv)).
+    apply led_stop. assumption.
+  - rewrite p_expr_S.
+    change (p_nud (S (S k)) (Tok "NAME" x :: rest)) with (Some (Term KVar x, rest)).
+    cbv iota beta. apply led_stop. assumption.
+Qed.
+
+Lemma p_list_vars : forall vs rest k,
+  vs <> [] -> Forall (var_wf T) vs ->
+  Parser.p_list T (List.length vs + 3 + k) (vars_toks vs ++ COLONt :: rest)
+  = Some (map (var_tree T) vs, COLONt :: rest).
+Proof.
+  induction vs as [|v vs IH]; intros rest k Hne Hw; [congruence|].
+  inversion Hw as [|? ? Hv Hvs]; subst.
+  destruct vs as [|v2 vs].
+  - change (List.length [v] + 3 + k) with (S (3 + k)). rewrite p_list_S.
+    change (vars_toks [v] ++ COLONt :: rest) with (var_toks v ++ COLONt :: rest).
+    rewrite (p_expr_var v (COLONt :: rest) k Hv (stops_COLON 0%N)). reflexivity.
+  - replace (List.length (v :: v2 :: vs) + 3 + k)
+      with (S (3 + (List.length (v2 :: vs) + k))) by (simpl; lia).
+    rewrite p_list_S.
+    change (vars_toks (v :: v2 :: vs) ++ COLONt :: rest)
+      with ((var_toks v ++ CMt :: vars_toks (v2 :: vs)) ++ COLONt :: rest).
+    rewrite <- app_assoc. simpl app.
+    rewrite (p_expr_var v (CMt :: vars_toks (v2 :: vs) ++ COLONt :: rest) _ Hv (stops_CM 0%N)).
+    change (is_ty CMt "COMMA") with true. cbv iota.
+    replace (3 + (List.length (v2 :: vs) + k)) with (List.length (v2 :: vs) + 3 + k) by lia.
+    rewrite IH; [reflexivity | discriminate | assumption].
+Qed.
+
 (* an atom is read by p_nud *)
 Lemma nud_atom : forall a rest k,
   atom_wf a -> atom_rok (hd_error rest) a ->
@@ -289,7 +397,8 @@ Lemma expr_yield : forall s, wf s -> respects s ->
     p_led k m (erase s) rest = Some res ->
     p_expr (cost s + k) m (yield s ++ rest) = Some res.
 Proof.
-  induction s as [a|t x IHx|t x IHx|t l IHl r IHr|x IHx|kw a IHa b IHb c IHc];
+  induction s as [a|t x IHx|t x IHx|t l IHl r IHr|x IHx|kw a IHa b IHb c IHc
+                  |a IHa b IHb c IHc|kw vs body IHb];
     intros Hwf Hre m rest k res Hfit Hrok Hled.
   - (* atom *)
     simpl in Hwf, Hrok, Hled. destruct k as [|k]; [discriminate|].
@@ -374,6 +483,47 @@ Proof.
       [| lia | apply IHc; auto using fits0, rok_RP; apply led_stop; apply stops_RP].
     simpl expect. cbv iota.
     eapply led_mono; [|exact Hled]. lia.
+  - (* IF a THEN b ELSE c *)
+    simpl in Hwf, Hre, Hrok, Hled.
+    destruct Hwf as [Hwa [Hwb Hwc]]. destruct Hre as [Hra [Hrb [Hrc Hfc]]].
+    destruct Hrok as [Hst Hrokc].
+    destruct k as [|k]; [discriminate|].
+    change (cost (SIf a b c) + S k) with (cost a + cost b + cost c + 5 + S k).
+    replace (cost a + cost b + cost c + 5 + S k)
+      with (S (S (cost a + cost b + cost c + 3 + S k))) by lia.
+    change (yield (SIf a b c) ++ rest)
+      with (IFt :: (yield a ++ THENt :: yield b ++ ELSEt :: yield c) ++ rest).
+    repeat (rewrite <- app_assoc; simpl app).
+    rewrite p_expr_S, p_nud_if.
+    rewrite (expr_mono T (cost a + S (S k)) _ 0%N _
+               (erase a, THENt :: yield b ++ ELSEt :: yield c ++ rest));
+      [| lia | apply IHa; auto using fits0; [apply rok_closer; [apply stops_THEN | reflexivity]
+                                           | apply led_stop; apply stops_THEN]].
+    simpl expect. cbv iota.
+    rewrite (expr_mono T (cost b + S (S k)) _ 0%N _ (erase b, ELSEt :: yield c ++ rest));
+      [| lia | apply IHb; auto using fits0; [apply rok_closer; [apply stops_ELSE | reflexivity]
+                                           | apply led_stop; apply stops_ELSE]].
+    simpl expect. cbv iota.
+    rewrite (expr_mono T (cost c + S (S k)) _ (rule_bind T "IF_THEN_ELSE") _ (erase c, rest));
+      [| lia | apply IHc; auto; apply led_stop; exact Hst].
+    eapply led_mono; [|exact Hled]. lia.
+  - (* quantifier *)
+    simpl in Hwf, Hre, Hrok, Hled.
+    destruct Hwf as [Hkw [Hne [Hvw Hwb]]]. destruct Hre as [Hrb Hfb].
+    destruct Hrok as [Hst Hrokb].
+    destruct k as [|k]; [discriminate|].
+    change (cost (SQuant kw vs body) + S k) with (List.length vs + cost body + 6 + S k).
+    replace (List.length vs + cost body + 6 + S k)
+      with (S (S (List.length vs + 3 + (cost body + 1 + S k)))) by lia.
+    change (yield (SQuant kw vs body) ++ rest)
+      with (kw :: (vars_toks vs ++ COLONt :: yield body) ++ rest).
+    repeat (rewrite <- app_assoc; simpl app).
+    rewrite p_expr_S, (p_nud_quant _ _ _ Hkw).
+    rewrite (p_list_vars vs (yield body ++ rest) _ Hne Hvw).
+    simpl expect. cbv iota.
+    rewrite (expr_mono T (cost body + S (S k)) _ (rule_bind T "COLON") _ (erase body, rest));
+      [| lia | apply IHb; auto; apply led_stop; exact Hst].
+    eapply led_mono; [|exact Hled]. lia.
 Qed.
 
 Lemma rok_None : forall s, rok None s.
@@ -386,10 +536,19 @@ Proof.
   - rewrite app_length. simpl. lia.
 Qed.
 
+Lemma vars_toks_length : forall vs, List.length vs <= List.length (vars_toks vs).
+Proof.
+  induction vs as [|v vs IH]; simpl; [lia|].
+  destruct vs as [|v2 vs].
+  - destruct v as [x [t|]]; simpl; lia.
+  - rewrite app_length. simpl in *. destruct v as [x [t|]]; simpl; lia.
+Qed.
+
 Lemma cost_le : forall s, cost s <= 3 * List.length (yield s).
 Proof.
   induction s; simpl; repeat (rewrite ?app_length; simpl); try lia.
-  pose proof (atom_toks_nonempty a). lia.
+  - pose proof (atom_toks_nonempty a). lia.
+  - pose proof (vars_toks_length vars). lia.
 Qed.
 
 (* the first token after s, when s is followed by rest *)
@@ -408,7 +567,8 @@ Qed.
 Lemma not_module : forall s rest, wf s -> not_def (hd_error rest) ->
   is_module_start (yield s ++ rest) = false.
 Proof.
-  induction s as [a|t x IHx|t x IHx|t l IHl r IHr|x IHx|kw a IHa b IHb c IHc];
+  induction s as [a|t x IHx|t x IHx|t l IHl r IHr|x IHx|kw a IHa b IHb c IHc
+                  |a IHa b IHb c IHc|kw vs body IHb];
     intros rest Hwf Hd.
   - destruct a as [v|t|n|v|a d b]; simpl in *.
     + destruct rest as [|t r]; [reflexivity|]. simpl in Hd. rewrite Hd. reflexivity.
@@ -433,6 +593,15 @@ Proof.
     unfold is_module_start. simpl. destruct ((yield x ++ [RPt]) ++ rest); reflexivity.
   - simpl in Hwf. destruct Hwf as [Hk _]. destruct kw as [ty v]. simpl in Hk. subst ty.
     reflexivity.
+  - change (yield (SIf a b c) ++ rest)
+      with (IFt :: (yield a ++ THENt :: yield b ++ ELSEt :: yield c) ++ rest).
+    unfold is_module_start. simpl.
+    destruct ((yield a ++ THENt :: yield b ++ ELSEt :: yield c) ++ rest); reflexivity.
+  - simpl in Hwf. destruct Hwf as [Hk _]. destruct kw as [ty v]. simpl in Hk.
+    change (yield (SQuant {| tty := ty; tval := v |} vs body) ++ rest)
+      with ({| tty := ty; tval := v |} :: (vars_toks vs ++ COLONt :: yield body) ++ rest).
+    destruct Hk; subst ty; unfold is_module_start; simpl;
+      destruct ((vars_toks vs ++ COLONt :: yield body) ++ rest); reflexivity.
 Qed.
 
 (* prec_determines_tree: for every surface tree that groups its operators as
@@ -599,6 +768,8 @@ Fixpoint ssim (s1 s2 : stree) : Prop :=
   | SBin t l r, SBin u l' r' => tsim t u /\ ssim l l' /\ ssim r r'
   | SParen x, SParen y => ssim x y
   | SIte k a b c, SIte k' a' b' c' => tsim k k' /\ ssim a a' /\ ssim b b' /\ ssim c c'
+  | SIf a b c, SIf a' b' c' => ssim a a' /\ ssim b b' /\ ssim c c'
+  | SQuant k vs x, SQuant k' vs' x' => tsim k k' /\ vs = vs' /\ ssim x x'
   | _, _ => False
   end.
 
@@ -638,6 +809,8 @@ Proof.
     split; eauto.
   - destruct H as [[E _] [Hl Hr]]. destruct R as [R1 R2]. unfold bin_rbp in *. rewrite <- E.
     split; eauto.
+  - destruct H as [Ha [Hb Hc]]. destruct R as [R1 R2]. split; eauto.
+  - destruct H as [_ [_ Hx]]. destruct R as [R1 R2]. split; eauto.
 Qed.
 
 Lemma ssim_wf : forall s1 s2, ssim s1 s2 -> wf T s1 -> wf T s2.
@@ -651,6 +824,8 @@ Proof.
   - destruct H as [[E _] [Hl Hr]]. rewrite <- E. intuition eauto.
   - eauto.
   - destruct H as [[E _] [Ha [Hb Hc]]]. rewrite <- E. intuition eauto.
+  - destruct H as [Ha [Hb Hc]]. intuition eauto.
+  - destruct H as [[E _] [Ev Hx]]. subst. rewrite <- E. intuition eauto.
 Qed.
 
 Lemma ssim_respects : forall s1 s2, ssim s1 s2 -> respects T s1 -> respects T s2.
@@ -666,6 +841,10 @@ Proof.
     + unfold bin_rbp in *. rewrite <- E. eapply ssim_fits; eauto.
   - eauto.
   - destruct H as [_ [Ha [Hb Hc]]]. intuition eauto.
+  - destruct H as [Ha [Hb Hc]]. destruct R as [R1 [R2 [R3 R4]]].
+    repeat split; eauto. eapply ssim_fits; eauto.
+  - destruct H as [_ [_ Hx]]. destruct R as [R1 R2].
+    split; eauto. eapply ssim_fits; eauto.
 Qed.
 
 Lemma ssim_erase : forall s1 s2, ssim s1 s2 ->
@@ -685,6 +864,10 @@ Proof.
   - eauto.
   - destruct H as [[E C] [Ha [Hb Hc]]].
     rewrite C, (IHs1_1 _ Ha), (IHs1_2 _ Hb), (IHs1_3 _ Hc). reflexivity.
+  - destruct H as [Ha [Hb Hc]].
+    rewrite (IHs1_1 _ Ha), (IHs1_2 _ Hb), (IHs1_3 _ Hc). reflexivity.
+  - destruct H as [[E C] [Ev Hx]]. subst.
+    rewrite C, (IHs1 _ Hx). reflexivity.
 Qed.
 
 End Spell.
